@@ -252,15 +252,10 @@ theorem splitStep_no {reg : StrRegistry} {s : Split} {item : Ty}
 
 theorem splitMembers_no {reg : StrRegistry} {ts : List Ty}
     (h : ∀ t ∈ ts, t.noOpt = true) : SplitNO (splitMembers reg ts) := by
-  rw [splitMembers_eq]
   have h0 : SplitNO ({} : Split) :=
     ⟨by simp, by intro fs hfs; simp at hfs, by simp, by simp, by simp⟩
-  generalize ({} : Split) = s at h0
-  induction ts generalizing s with
-  | nil => exact h0
-  | cons t ts ih =>
-    exact ih (fun t' h' => h t' (List.mem_cons_of_mem _ h')) _
-      (splitStep_no h0 (h t (List.mem_cons_self ..)))
+  exact splitMembers_invariant (R := fun t => t.noOpt = true) h0 (fun _ _ hs hi => splitStep_no hs hi) rfl
+    (fun _ hm => noOpt_union.1 hm) (fun _ hm => by simp [Ty.noOpt] at hm) h
 
 /-- what `optimize_type` is applied to during `generate` -/
 def Ty.genGood (t : Ty) : Prop :=
